@@ -9,8 +9,9 @@ import itertools
 import json
 import struct
 
-from vf import harness
-from vf.refserver import status_json
+from vf import harness, explore, protoids
+from vf.refproto import codec
+from vf.refserver import RefServer, status_json
 from vf.runner import ToolError
 
 LEVEL = 'fault_enumeration'
@@ -39,6 +40,12 @@ V = 757
 ORIGINS = ('early_listener', 'listener', 'reaction_login', 'reaction_status',
            'decoder', 'exit_callback', 'listener_on_disconnect',
            'reaction_negotiation')
+# origins that exist with a write error pending (an exit callback only runs
+# when the loop has ended without one), and those among them whose fault
+# occurs before the server has read anything
+PENDING_ORIGINS = tuple(o for o in ORIGINS if o != 'exit_callback')
+EARLY_ORIGINS = ('reaction_login', 'reaction_status', 'reaction_negotiation')
+PENDING_ENVS = ('raise', 'ok_once')
 FILTERS = ('orig', 'repl', 'none', 'all')
 ACTIONS = ('return', 'raise', 'reconnect')
 FINALS = ('None', 'False', 'returns', 'raises')
@@ -119,16 +126,58 @@ def reference(origin, chain, final):
     return calls, cur.__name__, reraised, reconnected
 
 
-def body(W, origin, chain, final):
+class ClosingServer(RefServer):
+    """A server that, once armed, answers the next bytes it receives by
+    sending what it was armed with and closing - the peer goes away while
+    the client is still in its write pass, with something left to read."""
+    armed = None
+
+    def on_sends(self, conn, entries):
+        if self.armed is not None and not self.closed:
+            fire, self.armed = self.armed, None
+            fire(self)
+            self.close()
+        RefServer.on_sends(self, conn, entries)
+
+
+def body(W, origin, chain, final, pending=None):
+    """pending: None, or the environment's answer to writes after the peer
+    has closed ('raise' / 'ok_once'): the fault then occurs in a lap whose
+    write pass has failed (the write error is waiting to be raised after
+    the read pass)."""
     S = W.S
-    from minecraft.networking.packets import clientbound
+    from minecraft.networking.packets import clientbound, serverbound
     ot = orig_type(origin)
     calls = []
     exits = []
     state = {'reconnected': False}
 
+    def trigger():
+        """What the server sends to provoke the fault (pending variant)."""
+        if origin in ('early_listener', 'listener'):
+            return lambda s: s.play(('keepalive', 5))
+        if origin == 'decoder':
+            return lambda s: s.play(('raw', 0x21, b'\x01'))
+        if origin == 'listener_on_disconnect':
+            return lambda s: s.play(('disconnect', '{"text":"bye"}'))
+
+        def early(s):       # before the handshake has been read
+            s.version = V
+            if origin == 'reaction_login':
+                s.send('login.disconnect', codec.string('{"text":"no"}'))
+            elif origin == 'reaction_status':
+                s.send('status.response',
+                       codec.string('this is {not json'), pid=0)
+            elif origin == 'reaction_negotiation':
+                s.send('status.response', codec.string('{}'), pid=0)
+            else:
+                raise ToolError('no pending variant of %r' % origin)
+        return early
+
     def per_conn(i):
         if i > 0:
+            return {'login': [('success',)], 'play_script': []}
+        if pending is not None:
             return {'login': [('success',)], 'play_script': []}
         if origin == 'reaction_login':
             return {'login': [('disconnect', '{"text":"no"}')]}
@@ -155,8 +204,20 @@ def body(W, origin, chain, final):
                     'play_script': [('keepalive', 1), ('keepalive', 2),
                                     ('disconnect', '{"text":"bye"}')]}
         return {'login': [('success',)], 'play_script': [('keepalive', 5)]}
-    W.serve(status={'json': status_json(protocol=V, name='1.18.1')},
-            per_conn=per_conn)
+    if pending is None:
+        W.serve(status={'json': status_json(protocol=V, name='1.18.1')},
+                per_conn=per_conn)
+    else:
+        def endpoint(vconn):
+            i = len(W.servers)
+            srv = ClosingServer(vconn, protoids.ids, W.rank, status={
+                'json': status_json(protocol=V, name='1.18.1')},
+                **per_conn(i))
+            if i == 0 and origin in EARLY_ORIGINS:
+                srv.armed = trigger()
+            W.servers.append(srv)
+            return srv
+        W.net.listen('srv', 25565, endpoint)
 
     def make_final():
         if final == 'None':
@@ -166,6 +227,7 @@ def body(W, origin, chain, final):
 
         def fn(exc, info):
             calls.append(('final', type(exc).__name__))
+            S.event('handler', 'final')
             if info[1] is not exc:
                 calls.append(('final-info-mismatch',))
             if final == 'raises':
@@ -183,6 +245,7 @@ def body(W, origin, chain, final):
     def make_handler(i, action):
         def fn(exc, info):
             calls.append((i, type(exc).__name__))
+            S.event('handler', i)
             if info[1] is not exc:
                 calls.append(('info-mismatch', i))
             if action == 'raise':
@@ -215,9 +278,27 @@ def body(W, origin, chain, final):
     else:
         conn.connect()
     W.settle()
+    if pending is not None and origin not in EARLY_ORIGINS:
+        # in play, idle: two packets are queued by the user; the server
+        # answers the first bytes of the first one with the packet that
+        # provokes the fault and closes; the rest of the write pass fails
+        # ('raise': at once, 'ok_once': one more write is accepted)
+        # (a tree on which this plain login fails provokes no fault here
+        # and is reported for that)
+        if W.servers[0].state == 'play' and not calls:
+            W.servers[0].armed = trigger()
+            for text in ('queued 1', 'queued 2'):
+                conn.write_packet(serverbound.play.ChatPacket(message=text))
+            W.settle()
     first = S.agents[1] if len(S.agents) > 1 else None
     srv0 = W.servers[0]
+    fails = [i for i, ev in enumerate(S.log) if ev[0] == 'send-fail'
+             and ev[1] == 0 and first is not None and ev[2] == first.id]
     out = {
+        # (pending variant) the first thread's write met EPIPE on the first
+        # connection before any handler ran
+        'write_failed': bool(fails) and not [
+            ev for ev in S.log[:fails[0]] if ev[0] == 'handler'],
         'calls': calls,
         'recorded': type(conn.exception).__name__
         if conn.exception is not None else None,
@@ -238,11 +319,18 @@ def body(W, origin, chain, final):
     # the new connection (if a handler started one) is live and undisturbed
     if state['reconnected'] and len(W.servers) > 1:
         srv1 = W.servers[-1]    # (after a negotiated reconnect: the 3rd)
-        srv1.play(('keepalive', 777))
-        W.settle()
-        out['new_conn_alive'] = ('keepalive', 777) in srv1.play_rx and \
-            not srv1.client_gone and type(conn.reactor).__name__ == \
-            'PlayingReactor'
+        if srv1.state != 'play':
+            # the new connection never got through its login
+            out['new_conn_alive'] = False
+            out['new_conn_state'] = '%s, frames %r, errors %r' % (
+                srv1.state, [(f[0], f[1]) for f in srv1.frames[:4]],
+                srv1.errors[:2])
+        else:
+            srv1.play(('keepalive', 777))
+            W.settle()
+            out['new_conn_alive'] = ('keepalive', 777) in srv1.play_rx and \
+                not srv1.client_gone and type(conn.reactor).__name__ == \
+                'PlayingReactor'
     elif not state['reconnected']:
         # afterwards the same object can connect again
         try:
@@ -305,8 +393,11 @@ def judge(origin, chain, final, x):
         if r.get('new_conn_alive') is not True:
             viol.append(('new-connection-disturbed', 'a handler started a '
                          'new connection, but afterwards it is not a live '
-                         'play connection (conns=%d live threads=%d)'
-                         % (r['conns'], r['live'])))
+                         'play connection (conns=%d live threads=%d%s)'
+                         % (r['conns'], r['live'],
+                            '; server side of the new connection: '
+                            + r['new_conn_state']
+                            if 'new_conn_state' in r else '')))
     else:
         if r['live'] != 0 and 'reusable' not in r:
             viol.append(('thread-survives', '%d threads alive' % r['live']))
